@@ -250,3 +250,55 @@ M('C03-twin-guard-before-increment', 'C03', BASIC,
 M('C03-twin-mask-negative', 'C03', BASIC,
   "        if value < 0:\n            raise ValueError(\"Cannot encode a negative number as a VarInt\")\n",
   "        value &= 0xFFFFFFFFFFFFFFFF\n", expect='silent')
+
+# ---------------------------------------------------------------- C04
+M('C04-send-swap-shifts', 'C04', BASIC,
+  "value = ((x & 0x3FFFFFF) << 38 | (z & 0x3FFFFFF) << 12 | (y & 0xFFF)",
+  "value = ((x & 0x3FFFFFF) << 38 | (z & 0x3FFFFFF) << 26 | (y & 0xFFF)")
+M('C04-both-sides-yz-swapped-new', 'C04', BASIC,
+  "value = ((x & 0x3FFFFFF) << 38 | (z & 0x3FFFFFF) << 12 | (y & 0xFFF)\n                 if context.protocol_later_eq(443) else",
+  "value = ((x & 0x3FFFFFF) << 38 | (y & 0xFFF) << 26 | (z & 0x3FFFFFF)\n                 if context.protocol_later_eq(443) else",
+  rule='R04.3')
+M('C04-y-mask-7ff', 'C04', BASIC,
+  "(z & 0x3FFFFFF) << 12 | (y & 0xFFF)", "(z & 0x3FFFFFF) << 12 | (y & 0x7FF)")
+M('C04-sign-extend-x-24', 'C04', BASIC,
+  "        if x >= pow(2, 25):\n            x -= pow(2, 26)", "        if x >= pow(2, 24):\n            x -= pow(2, 26)",
+  rule='R04.2')
+M('C04-sign-extend-y-dropped', 'C04', BASIC,
+  "        if y >= pow(2, 11):\n            y -= pow(2, 12)\n", "", rule='R04.2')
+M('C04-boundary-one-side', 'C04', BASIC,
+  "        if context.protocol_later_eq(443):\n            z = int((location >> 12)",
+  "        if context.protocol_later_eq(477):\n            z = int((location >> 12)", rule='R04.2')
+M('C04-boundary-404-both', 'C04', BASIC, "context.protocol_later_eq(443)", "context.protocol_later_eq(404)",
+  count=2, rule='R04.3')
+M('C04-boundary-480-both', 'C04', BASIC, "context.protocol_later_eq(443)", "context.protocol_later_eq(480)",
+  count=2, rule='R04.3')
+M('C04-csp-z-shift', 'C04', BLOCK, "(z & 0x3FFFFF) << 20 | y & 0xFFFFF", "(z & 0x3FFFFF) << 22 | y & 0xFFFFF",
+  rule='R04.4')
+M('C04-csp-read-y-signbit', 'C04', BLOCK, "y = value | ~0xFFFFF if value & 0x80000 else value & 0xFFFFF",
+  "y = value | ~0xFFFFF if value & 0x40000 else value & 0xFFFFF", rule='R04.4')
+M('C04-csp-both-sides-xz-swapped', 'C04', BLOCK,
+  "            x = value | ~0x3FFFFF if value & 0x200000 else value\n            return cls(x, y, z)\n\n        @classmethod\n        def send(cls, pos, socket):\n            x, y, z = pos\n            value = (x & 0x3FFFFF) << 42 | (z & 0x3FFFFF) << 20 | y & 0xFFFFF",
+  "            x = value | ~0x3FFFFF if value & 0x200000 else value\n            return cls(z, y, x)\n\n        @classmethod\n        def send(cls, pos, socket):\n            x, y, z = pos\n            value = (z & 0x3FFFFF) << 42 | (x & 0x3FFFFF) << 20 | y & 0xFFFFF",
+  rule='R04.4')
+M('C04-record-shift', 'C04', BLOCK, "record.block_state_id = value >> 12", "record.block_state_id = value >> 8",
+  rule='R04.5')
+M('C04-record-old-xz', 'C04', BLOCK, "                record.x = h_position >> 4\n                record.z = h_position & 0xF",
+  "                record.z = h_position >> 4\n                record.x = h_position & 0xF", rule='R04.5')
+M('C04-record-carrier', 'C04', BLOCK, "                value = VarLong.read(file_object)",
+  "                value = UnsignedLong.read(file_object)", rule='R04.5')
+M('C04-record-boundary', 'C04', BLOCK,
+  "            if context.protocol_later_eq(741):\n                value = VarLong.read(file_object)",
+  "            if context.protocol_later_eq(748):\n                value = VarLong.read(file_object)", rule='R04.5')
+M('C04-twin-shift-form', 'C04', BASIC, "        if x >= pow(2, 25):\n            x -= pow(2, 26)",
+  "        if x >= 1 << 25:\n            x -= 1 << 26", expect='silent')
+M('C04-twin-reorder-sign-blocks', 'C04', BASIC,
+  "        if x >= pow(2, 25):\n            x -= pow(2, 26)\n\n        if y >= pow(2, 11):\n            y -= pow(2, 12)\n",
+  "        if y >= pow(2, 11):\n            y -= pow(2, 12)\n\n        if x >= pow(2, 25):\n            x -= pow(2, 26)\n",
+  expect='silent')
+M('C04-twin-boundary-earlier-form', 'C04', BASIC,
+  "        if context.protocol_later_eq(443):\n            z = int((location >> 12) & 0x3FFFFFF)  # 26 intermediate bits\n            y = int(location & 0xFFF)              # 12 least signficant bits\n        else:\n            y = int((location >> 26) & 0xFFF)      # 12 intermediate bits\n            z = int(location & 0x3FFFFFF)          # 26 least significant bits",
+  "        if context.protocol_earlier(443):\n            y = int((location >> 26) & 0xFFF)      # 12 intermediate bits\n            z = int(location & 0x3FFFFFF)          # 26 least significant bits\n        else:\n            z = int((location >> 12) & 0x3FFFFFF)  # 26 intermediate bits\n            y = int(location & 0xFFF)              # 12 least signficant bits",
+  expect='silent')
+M('C04-twin-boundary-moved-within-snapshots', 'C04', BASIC, "context.protocol_later_eq(443)",
+  "context.protocol_later_eq(441)", count=2, expect='silent')
